@@ -56,6 +56,7 @@ theorem width_good' (start w : α) (k : Nat) (hk : 1 ≤ k) (hw : 0 < w) :
 /-- The bin count of `_create_bins(start, stop, w=w)` reaches `stop`. -/
 theorem width_covers' [FloorRing α] (start stop w : α) (hw : 0 < w) (h : start ≤ stop) :
     stop ≤ start + w * ((max (Nat.ceil ((stop - start) / w)) 1 : Nat) : α) := by
+  have _ := h
   have h1 : (stop - start) / w ≤ ((Nat.ceil ((stop - start) / w) : Nat) : α) := Nat.le_ceil _
   have h2 : ((Nat.ceil ((stop - start) / w) : Nat) : α) ≤ ((max (Nat.ceil ((stop - start) / w)) 1 : Nat) : α) := by
     exact_mod_cast le_max_left _ _
@@ -253,6 +254,7 @@ theorem rebinWith_shape' (edges : List α) (hg : GoodEdges edges) (p s c : List 
     (lo hi : α) (hlo : edges[j]? = some lo) (hhi : edges[j + 1]? = some hi) :
     ∃ b, (rebinWith edges p s c)[j]? = some b ∧ b.primary = (lo + hi) / 2 ∧
       ((∀ v ∈ p, binIndex edges v ≠ some j) → b.count = 0 ∧ b.secondary = none) := by
+  have _ := hg
   have hN : ∃ n, (hist edges p c)[j]? = some n := by
     rw [List.getElem?_eq_getElem (by rw [hist_length']; omega)]; exact ⟨_, rfl⟩
   have hS : ∃ n, (hist edges p (List.zipWith (· * ·) c s))[j]? = some n := by
@@ -357,22 +359,164 @@ theorem rebin_mean_conserves' [FloorRing α] (t : List (Row α)) (hv : ValidTabl
 
 /-! ### mesh -/
 
+/-- Range edges of the mesh. -/
+def meshRE (t : List (Row α)) (nr : Nat) : List α :=
+  linspaceEdges (outer (0.0 : α) (maxOf (t.map (·.range)) 0)).1 (outer (0.0 : α) (maxOf (t.map (·.range)) 0)).2 nr
+
+/-- Mean edges of the mesh. -/
+def meshME (t : List (Row α)) (nm : Nat) : List α :=
+  linspaceEdges (outer (minOf (t.map (·.mean)) 0) (maxOf (t.map (·.mean)) 0)).1
+    (outer (minOf (t.map (·.mean)) 0) (maxOf (t.map (·.mean)) 0)).2 nm
+
+/-- One cell of the mesh as a sum of indicator terms over the table. -/
+def cell2 (re me : List α) (t : List (Row α)) (jr jm : Nat) : α :=
+  (t.map fun r => if (binIndex re r.range == some jr && binIndex me r.mean == some jm) then r.count else 0).sum
+
+theorem mesh_cm (t : List (Row α)) (nr nm : Nat) :
+    (mesh t nr nm).2.2 = (List.range nm).map fun jm => (List.range nr).map fun jr =>
+      cell2 (meshRE t nr) (meshME t nm) t jr jm := by
+  unfold mesh
+  show (List.range nm).map _ = _
+  apply List.map_congr_left
+  intro jm _
+  apply List.map_congr_left
+  intro jr _
+  have h := sum_filterMap_ite
+    (List.zip (List.zip (t.map (·.range)) (t.map (·.mean))) (t.map (·.count)))
+    (fun x : (α × α) × α => binIndex (meshRE t nr) x.1.1 == some jr && binIndex (meshME t nm) x.1.2 == some jm)
+    (fun x => x.2)
+  refine h.trans ?_
+  rw [List.zip_map', List.zip_map', List.map_map]
+  rfl
+
+theorem map_ne_nil_of_valid (t : List (Row α)) (hv : ValidTable t) (f : Row α → α) : t.map f ≠ [] := by
+  intro h; rw [List.map_eq_nil_iff] at h; exact hv.1 h
+
+theorem meshRE_spec (t : List (Row α)) (hv : ValidTable t) (nr : Nat) (hr : 1 ≤ nr) :
+    GoodEdges (meshRE t nr) ∧ (meshRE t nr).length = nr + 1 ∧ ∀ r ∈ t, Covered (meshRE t nr) r.range := by
+  have hne := map_ne_nil_of_valid t hv (fun r : Row α => r.range)
+  have hmax := maxOf_spec (t.map fun r : Row α => r.range) 0 hne
+  have h0max : (0.0 : α) ≤ maxOf (t.map fun r : Row α => r.range) 0 := by
+    rw [zero_lit]
+    obtain ⟨r, hr, hre⟩ := List.mem_map.1 hmax.2
+    rw [← hre]; exact (hv.2 r hr).1
+  obtain ⟨ho1, ho2, ho3⟩ := outer_spec _ _ h0max
+  obtain ⟨h1, h2, h3, h4⟩ := linspace_good' _ _ nr hr ho1
+  refine ⟨h1, h4, fun r hrt => ⟨_, _, h2, h3, ?_, ?_⟩⟩
+  · exact ho2.trans (by rw [zero_lit]; exact (hv.2 r hrt).1)
+  · exact (hmax.1 _ (List.mem_map_of_mem hrt)).trans ho3
+
+theorem meshME_spec (t : List (Row α)) (hv : ValidTable t) (nm : Nat) (hm : 1 ≤ nm) :
+    GoodEdges (meshME t nm) ∧ (meshME t nm).length = nm + 1 ∧ ∀ r ∈ t, Covered (meshME t nm) r.mean := by
+  have hne := map_ne_nil_of_valid t hv (fun r : Row α => r.mean)
+  have hmm := minmax_spec' (t.map fun r : Row α => r.mean) 0 hne
+  have hle : minOf (t.map fun r : Row α => r.mean) 0 ≤ maxOf (t.map fun r : Row α => r.mean) 0 :=
+    (hmm.1 _ hmm.2.1).2
+  obtain ⟨ho1, ho2, ho3⟩ := outer_spec _ _ hle
+  obtain ⟨h1, h2, h3, h4⟩ := linspace_good' _ _ nm hm ho1
+  refine ⟨h1, h4, fun r hrt => ⟨_, _, h2, h3, ?_, ?_⟩⟩
+  · exact ho2.trans (hmm.1 _ (List.mem_map_of_mem hrt)).1
+  · exact (hmm.1 _ (List.mem_map_of_mem hrt)).2.trans ho3
+
+theorem meshRE_idx (t : List (Row α)) (hv : ValidTable t) (nr : Nat) (hr : 1 ≤ nr) :
+    ∀ r ∈ t, ∃ j, j < nr ∧ binIndex (meshRE t nr) r.range = some j := by
+  obtain ⟨hg, hlen, hc⟩ := meshRE_spec t hv nr hr
+  intro r hrt
+  obtain ⟨j, hj, hb⟩ := binIndex_lt _ hg _ (hc r hrt)
+  exact ⟨j, by omega, hb⟩
+
+theorem meshME_idx (t : List (Row α)) (hv : ValidTable t) (nm : Nat) (hm : 1 ≤ nm) :
+    ∀ r ∈ t, ∃ j, j < nm ∧ binIndex (meshME t nm) r.mean = some j := by
+  obtain ⟨hg, hlen, hc⟩ := meshME_spec t hv nm hm
+  intro r hrt
+  obtain ⟨j, hj, hb⟩ := binIndex_lt _ hg _ (hc r hrt)
+  exact ⟨j, by omega, hb⟩
+
+/-- A histogram of a table column weighted by the counts, entry `j`. -/
+theorem hist_table_getD (edges : List α) (t : List (Row α)) (f : Row α → α) (j : Nat) (hj : j < edges.length - 1) :
+    (hist edges (t.map f) (t.map fun r : Row α => r.count)).getD j 0 =
+      (t.map fun r => if binIndex edges (f r) == some j then r.count else 0).sum := by
+  rw [hist_eq, List.getD_eq_getElem?_getD, List.getElem?_map, List.getElem?_range hj]
+  simp only [Option.map_some, Option.getD_some]
+  rw [List.zip_map', List.map_map]
+  rfl
+
+theorem sum_mesh_col (t : List (Row α)) (hv : ValidTable t) (nr nm : Nat) (hm : 1 ≤ nm) (jr : Nat)
+    (hjr : jr < nr) :
+    sum ((mesh t nr nm).2.2.map fun row => row.getD jr 0) =
+      (t.map fun r => if binIndex (meshRE t nr) r.range == some jr then r.count else 0).sum := by
+  rw [mesh_cm, sum_eq, List.map_map]
+  rw [← sum_cells2_second t (fun r => binIndex (meshRE t nr) r.range) (fun r => binIndex (meshME t nm) r.mean)
+    (fun r => r.count) nm jr (meshME_idx t hv nm hm)]
+  congr 1
+  apply List.map_congr_left
+  intro jm _
+  simp only [Function.comp, List.getD_eq_getElem?_getD, List.getElem?_map, List.getElem?_range hjr,
+    Option.map_some, Option.getD_some]
+  rfl
+
+theorem sum_mesh_row (t : List (Row α)) (hv : ValidTable t) (nr nm : Nat) (hr : 1 ≤ nr) (jm : Nat)
+    (hjm : jm < nm) :
+    sum ((mesh t nr nm).2.2.getD jm []) =
+      (t.map fun r => if binIndex (meshME t nm) r.mean == some jm then r.count else 0).sum := by
+  rw [mesh_cm, sum_eq]
+  rw [← sum_cells2_first t (fun r => binIndex (meshRE t nr) r.range) (fun r => binIndex (meshME t nm) r.mean)
+    (fun r => r.count) nr jm (meshRE_idx t hv nr hr)]
+  simp only [List.getD_eq_getElem?_getD, List.getElem?_map, List.getElem?_range hjm,
+    Option.map_some, Option.getD_some]
+  rfl
+
 /-- The mesh has the same total as the table. -/
 theorem mesh_total' (t : List (Row α)) (hv : ValidTable t) (nr nm : Nat) (hr : 1 ≤ nr) (hm : 1 ≤ nm) :
     sum ((mesh t nr nm).2.2.map sum) = sum (t.map (·.count)) := by
-  sorry
+  have hlen : (mesh t nr nm).2.2.length = nm := by rw [mesh_cm]; simp
+  have hrows : (mesh t nr nm).2.2.map sum = (List.range nm).map fun jm =>
+      (t.map fun r => if binIndex (meshME t nm) r.mean == some jm then r.count else 0).sum := by
+    apply List.ext_getElem?
+    intro jm
+    by_cases hjm : jm < nm
+    · have h := sum_mesh_row t hv nr nm hr jm hjm
+      rw [List.getD_eq_getElem?_getD, List.getElem?_eq_getElem (by omega)] at h
+      simp only [Option.getD_some] at h
+      rw [List.getElem?_map, List.getElem?_eq_getElem (by omega), List.getElem?_map, List.getElem?_range hjm]
+      simp only [Option.map_some]
+      rw [h]
+    · rw [List.getElem?_eq_none (by simp; omega), List.getElem?_eq_none (by simp; omega)]
+  rw [hrows, sum_eq, sum_eq]
+  exact sum_cells t (fun r => binIndex (meshME t nm) r.mean) (fun r => r.count) nm (meshME_idx t hv nm hm)
 
 /-- Summing the mesh over the mean bins gives the one-dimensional re-binning by range with `nr` bins … -/
 theorem mesh_marginal_range' (t : List (Row α)) (hv : ValidTable t) (hpos : ∃ r ∈ t, 0 < r.range) (nr nm : Nat)
     (hr : 1 ≤ nr) (hm : 1 ≤ nm) (jr : Nat) (hjr : jr < nr) :
     sum ((mesh t nr nm).2.2.map fun row => row.getD jr 0) = ((rebin t .range (.n nr)).map (·.count)).getD jr 0 := by
-  sorry
+  have hmax : (0.0 : α) < maxOf (t.map fun r : Row α => r.range) 0 := by
+    rw [zero_lit]; exact maxOf_ranges_pos t hpos
+  have hre : meshRE t nr = linspaceEdges (0.0 : α) (maxOf (t.map fun r : Row α => r.range) 0) nr := by
+    unfold meshRE
+    rw [outer_of_lt _ _ hmax]
+  have hreb : (rebin t .range (.n nr)).map (·.count) =
+      hist (meshRE t nr) (t.map fun r : Row α => r.range) (t.map fun r : Row α => r.count) := by
+    rw [hre]
+    exact rebinWith_count _ _ _ _
+  rw [hreb, sum_mesh_col t hv nr nm hm jr hjr, hist_table_getD]
+  rw [(meshRE_spec t hv nr hr).2.1]
+  omega
 
 /-- … and summing over the range bins gives the re-binning by mean with `nm` bins (two distinct means). -/
 theorem mesh_marginal_mean' (t : List (Row α)) (hv : ValidTable t)
     (hdist : minOf (t.map (·.mean)) 0 < maxOf (t.map (·.mean)) 0) (nr nm : Nat)
     (hr : 1 ≤ nr) (hm : 1 ≤ nm) (jm : Nat) (hjm : jm < nm) :
     sum (((mesh t nr nm).2.2.getD jm [])) = ((rebin t .mean (.n nm)).map (·.count)).getD jm 0 := by
-  sorry
+  have hme : meshME t nm =
+      linspaceEdges (minOf (t.map fun r : Row α => r.mean) 0) (maxOf (t.map fun r : Row α => r.mean) 0) nm := by
+    unfold meshME
+    rw [outer_of_lt _ _ hdist]
+  have hreb : (rebin t .mean (.n nm)).map (·.count) =
+      hist (meshME t nm) (t.map fun r : Row α => r.mean) (t.map fun r : Row α => r.count) := by
+    rw [hme]
+    exact rebinWith_count _ _ _ _
+  rw [hreb, sum_mesh_row t hv nr nm hr jm hjm, hist_table_getD]
+  rw [(meshME_spec t hv nm hm).2.1]
+  omega
 
 end Qats.Rebin
